@@ -140,13 +140,21 @@ def main(tier, seed, replay=None):
     rep.add_tlc(sr)
     themes['deep'] = sorted(deep, key=lambda s: s.key())
     rep.notes['deep_sentences'] = len(deep)
+    # the ASI sentences once more inside function bodies that stand in call
+    # arguments, groupings, assignments, declarations (sentence.embed)
+    tmpls = gen.templates(rep)
+    pool = [s for n in THEMES for s in themes[n]
+            if any(it.virtual for it in s.items)
+            and hash(s.key()) % (8 if tier == 'quick' else 2) == seed % 2]
+    themes['embedded'] = gen.embeddings(pool, tmpls, rng, 1)
+    rep.notes['embedded_sentences'] = len(themes['embedded'])
     rep.mark('generated')
     kinds = core.BREAK_KINDS
     work = []
     meta = []
     distinct = set()
     n = 0
-    for name in THEMES + ['deep']:
+    for name in THEMES + ['deep', 'embedded']:
         for s in themes[name]:
             has_v = any(it.virtual for it in s.items)
             has_nl = any(t.nl for t in s.tokens)
